@@ -571,7 +571,7 @@ Proof.
 Qed.
 
 Lemma exec_sim : forall s a s' os m,
-  Inv s -> Cpl s m -> benign fx s a = true -> exec fx p s a = Some (s', os) ->
+  Inv s -> Cpl s m -> benign fx p s a = true -> exec fx p s a = Some (s', os) ->
   mon_run (chk_outcome p) m os = true /\ Cpl s' (fold_left mon_upd os m).
 Proof.
   intros s a s' os m I C B H.
